@@ -174,8 +174,51 @@ m1! {
     c12_m1_five_quotes => (20; b"QLbxxLbQ", false, 2, 2, false),
     c12_m1_no_base => (14; b"qLxxLq", false, 2, 4, false),
     c12_m1_short_nonblank_line => (16; b"qLxLbbbq", false, 2, 2, false),
-    c12_m1_cr_then_lf_lines => (24; b"qLbxRbxLbxLbq", false, 2, 2, true)
+    c12_m1_cr_then_lf_lines => (24; b"qLbxRbxLbxLbq", false, 2, 2, true),
+    c12_m1_crlf_then_empty_lf_line => (22; b"qLbxCLbxLbq", false, 2, 2, false)
 }
+
+/// M5: two multi-line literals in ONE logical line, both in need of re-indentation: both are
+/// rewritten in the same pass (each == reference).
+fn m5_body(hard: bool, iw: u8, cw: u8) {
+    let lit_a: &'static str = "\'\'\'\n a\n \'\'\'";
+    let lit_b: &'static str = "\'\'\'\n   b\n   \'\'\'";
+    let crlf: bool = kani::any();
+    let rs = recon_settings(crlf, hard, iw, cw);
+    let (ia, ca, ib, cb) = (any_upto(1), any_upto(1), any_upto(1), any_upto(1));
+    let tokens = vec![
+        tok(lit_a, 0, TokenType::TextLiteral(TextLiteralKind::MultiLine)),
+        tok(",", 0, TokenType::Op(OperatorKind::Comma)),
+        tok(lit_b, 0, TokenType::TextLiteral(TextLiteralKind::MultiLine)),
+    ];
+    let mut ft = FormattedTokens::verif_new(leak_tokens(tokens), vec![fd(false, 1, ia, ca, 0), fd(false, 0, 0, 0, 0), fd(false, 1, ib, cb, 0)]);
+    let line = LogicalLine::new(None, 0, vec![0, 1, 2], LogicalLineType::Unknown);
+    let changed = ms::format_multiline_strings(&rs, &line, &mut ft);
+    let nl: &[u8] = if crlf { b"\r\n" } else { b"\n" };
+    let unit = if hard { b'\t' } else { b' ' };
+    let mut k = 0;
+    while k < 2 {
+        let (idx, lit, i, c) = if k == 0 { (0, lit_a, ia, ca) } else { (2, lit_b, ib, cb) };
+        let mut indent = Buf::new();
+        let mut j = 0;
+        while j < i as usize * iw as usize + c as usize * cw as usize {
+            indent.push(unit);
+            j += 1;
+        }
+        let want = ref_rewrite(lit.as_bytes(), nl, &indent.b[..indent.n]).expect("conforming literal");
+        let out = ft.get_token(idx).unwrap().0.get_content().as_bytes();
+        assert!(out.len() == want.n, "a literal of the line was not (fully) re-indented");
+        let p: usize = kani::any();
+        kani::assume(p < want.n);
+        assert!(out[p] == want.b[p], "re-indented literal differs from the reference");
+        k += 1;
+    }
+    cover!(changed, "rewritten");
+    std::mem::forget(ft);
+    std::mem::forget(line);
+}
+str_harness! { fn c12_m5_two_literals_one_line_soft() unwind(20) { m5_body(false, 2, 4) } }
+str_harness! { fn c12_m5_two_literals_one_line_hard() unwind(20) { m5_body(true, 1, 1) } }
 
 /// M3: lexer side: an odd run of >= 3 quotes followed by a line break opens a multi-line literal
 /// which ends at the first later occurrence of the same run; without one it is Unterminated to
